@@ -3,7 +3,7 @@ from . import common
 
 MODULE = "StorageModel.Properties.C11"
 THEOREMS = ["table_is_good", "literal_denotes", "every_string_has_literal", "distinct_strings", "no_reread",
-            "literal_lexes"]
+            "literal_lexes", "compare_matches", "eq_matches_exactly"]
 
 
 def _unhex(w):
